@@ -204,14 +204,37 @@ def check(ctx):
             ctx.undecided("R-CODEC", construct, where, "loop index not recognised", key="shape")
             continue
         it = sym.Interp(fold=lambda e: repo.fold(m, e), inline=helper_inline, log_calls=True)
-        paths = it.loop_body(lp, {idx: O, p0: INP})
-        # the pair: input[o : o + w]
+        # names bound before the loop (pair counts, the normalised input) keep their meaning inside it
+        pre = []
+        for st_ in strip_doc(fn.body):
+            if st_ is lp or any(x is lp for x in ast.walk(st_)):
+                break
+            pre.append(st_)
+        try:
+            pre_paths = [q for q in it.run(pre, sym.PathState({p0: INP}, [], [])) if q.term == "fall"]
+        except sym.TooMany:
+            pre_paths = []
+        env0 = {k: v for k, v in (pre_paths[0].env.items() if len(pre_paths) == 1 else []) if k != p0 and not isinstance(v, (str, bytes))}
+        paths = it.loop_body(lp, dict(env0, **{idx: O, p0: INP}))
+
+        def is_slice_of_input(t):
+            # input[a : a + w] for a constant width w: a pair of digits at some offset
+            if not (isinstance(t, tuple) and len(t) == 4 and t[0] == "slice" and (t[1] == INP or (isinstance(t[1], tuple) and t[1][0] == "name"))):
+                return False
+            try:
+                return t[2] is not None and t[3] is not None and sym.is_int(sym.add(t[3], t[2], -1)) and sym.add(t[3], t[2], -1) > 0
+            except Exception:
+                return False
+        # the pair: input[k*o : k*o + w]
         pair = None
         for p_ in paths:
             for v in list(p_.env.values()) + [c for c, _ in p_.conds]:
                 def is_pair(t):
-                    return isinstance(t, tuple) and len(t) == 4 and t[0] == "slice" and t[2] == O and \
-                        (t[1] == INP or (isinstance(t[1], tuple) and t[1][0] == "name"))
+                    try:
+                        return is_slice_of_input(t) and sym.is_int(sym.lin_coef(t[2], O)) and sym.lin_coef(t[2], O) >= 1 \
+                            and sym.is_int(sym.add(t[2], sym.scale(O, sym.lin_coef(t[2], O)), -1))
+                    except Exception:
+                        return False
                 if contains(v, is_pair):
                     def grab(t):
                         nonlocal pair
@@ -225,9 +248,25 @@ def check(ctx):
         if pair is None:
             ctx.undecided("R-CODEC", construct, where, "pair extraction not recognised", key="shape")
             continue
-        wterm = sym.add(pair[3], O, -1) if pair[3] is not None else None
+        wterm = sym.add(pair[3], pair[2], -1) if pair[3] is not None else None
         w = wterm if sym.is_int(wterm) else None
-        REV = lambda t: isinstance(t, tuple) and len(t) == 5 and t[0] == "slice3" and t[1] == pair and t[2:] == (None, None, -1)
+        coef = sym.lin_coef(pair[2], O)
+        REV = lambda t: isinstance(t, tuple) and len(t) == 5 and t[0] == "slice3" and (t[1] == pair or is_slice_of_input(t[1])) \
+            and t[2:] == (None, None, -1)
+
+        def filler_form(a_):
+            # "f" + X  /  X + "f"  /  f"f{X}" with X built from the input: (filler, position of the filler) or None
+            from_input = lambda t: contains(t, lambda u: u == pair or is_slice_of_input(u) or u == INP)
+            if isinstance(a_, tuple) and len(a_) == 4 and a_[0] == "op" and a_[1] == "Add":
+                if isinstance(a_[2], str) and from_input(a_[3]):
+                    return a_[2], 0
+                if isinstance(a_[3], str) and from_input(a_[2]):
+                    return a_[3], 1
+            if isinstance(a_, tuple) and a_ and a_[0] == "fstr":
+                lits = [x for x in a_[1] if isinstance(x, str)]
+                if len(lits) == 1 and len(a_[1]) == 2:
+                    return lits[0], 0 if isinstance(a_[1][0], str) else 1
+            return None
 
         def appended(p_):
             """terms appended to the output accumulator on this path"""
@@ -235,11 +274,12 @@ def check(ctx):
             if p_.term == "return" and isinstance(p_.value, tuple) and len(p_.value) == 4 and p_.value[:2] == ("op", "Add") \
                     and isinstance(p_.value[2], tuple) and p_.value[2][0] == "name":
                 out.append(p_.value[3])       # `return acc + X`
+            base = lambda t, k: t == ("name", k) or (isinstance(t, tuple) and len(t) == 3 and t[0] == "loopvar" and t[1] == k)
             for k, v in p_.env.items():
-                if isinstance(v, tuple) and len(v) == 4 and v[0] == "op" and v[1] == "Add" and v[2] == ("name", k):
+                if isinstance(v, tuple) and len(v) == 4 and v[0] == "op" and v[1] == "Add" and base(v[2], k):
                     out.append(v[3])
                 elif isinstance(v, tuple) and len(v) == 4 and v[0] == "op" and v[1] == "Add" and isinstance(v[2], tuple) and len(v[2]) == 4 \
-                        and v[2][:2] == ("op", "Add") and v[2][2] == ("name", k):
+                        and v[2][:2] == ("op", "Add") and base(v[2][2], k):
                     out.extend([v[2][3], v[3]])
             return out
 
@@ -253,16 +293,42 @@ def check(ctx):
                 if role == "dec" and isinstance(c, tuple) and c[0] == "cmp" and c[1] == "In" and c[3] == pair and isinstance(c[2], str):
                     return not tv
             return None
-        full = [p_ for p_ in paths if is_full(p_) is True]
-        tail = [p_ for p_ in paths if is_full(p_) is False]
-        if not full or not tail or len(full) + len(tail) != len(paths):
+        def kind_of(p_):
+            # by the branch condition where the loop tests the pair; otherwise by what the path emits
+            k_ = is_full(p_)
+            if k_ is not None:
+                return k_
+            A_ = appended(p_)
+            if any(contains(a_, REV) for a_ in A_):
+                return True
+            if any(filler_form(a_) for a_ in A_) or any(isinstance(a_, tuple) and a_ and a_[0] == "sub" and a_[1] == pair for a_ in A_):
+                return False
+            return None
+        full = [p_ for p_ in paths if kind_of(p_) is True]
+        tail = [p_ for p_ in paths if kind_of(p_) is False]
+        # the odd trailing digit may be handled after the loop: paths of the whole function that append a filler form to the
+        # accumulator the loop left behind
+        if not tail:
+            try:
+                for q_ in it.run(strip_doc(fn.body), sym.PathState({p0: INP}, [], [])):
+                    if q_.term != "raise" and any(e[0] == "loop" and e[2] is lp for e in q_.effects) and any(filler_form(a_) for a_ in appended(q_)):
+                        tail.append(q_)
+            except sym.TooMany:
+                pass
+            n_loop_tail = 0
+        else:
+            n_loop_tail = len(tail)
+        if not full or not tail or len(full) + n_loop_tail != len(paths):
             ctx.undecided("R-CODEC", construct, where, f"full-pair / tail branches not recognised ({len(full)} full, {len(tail)} tail, "
                           f"{len(paths)} paths)", key="branch")
             continue
-        steps = sorted({sym.add(p_.get(idx), O, -1) if isinstance(lp, ast.While) else range_step for p_ in full}, key=str)
+        # distance between the pairs of two consecutive iterations: (advance of the index) x (index coefficient of the pair's offset)
+        steps = sorted({sym.scale(sym.add(p_.get(idx), O, -1), coef) if isinstance(lp, ast.While) else
+                        (range_step * coef if sym.is_int(range_step) else range_step) for p_ in full}, key=str)
         fill_d = next((c[2] for p_ in paths for c, tv in p_.conds if role == "dec" and isinstance(c, tuple) and c[0] == "cmp"
                        and c[1] == "In" and c[3] == pair), None)
-        info[role] = dict(w=w, full=full, tail=tail, fn=fn, steps=steps, pair=pair, fill_d=fill_d, idx=idx, appended=appended, lp=lp)
+        info[role] = dict(w=w, full=full, tail=tail, fn=fn, steps=steps, pair=pair, fill_d=fill_d, idx=idx, appended=appended, lp=lp,
+                          filler_form=filler_form)
         ctx.decide(steps == [w] and w == 2, "R-CODEC/step", construct, where, f"loop steps by the pair width {w}",
                    f"pair width is {w} but the loop index advances by {[sym.show(s_) for s_ in steps]} in the full-pair branch: digits are "
                    f"skipped or re-read", key="step")
@@ -276,15 +342,9 @@ def check(ctx):
         fill_e = pos_e = None
         for p_ in e["tail"]:
             for a_ in e["appended"](p_):
-                if isinstance(a_, tuple) and len(a_) == 4 and a_[0] == "op" and a_[1] == "Add":
-                    if isinstance(a_[2], str) and contains(a_[3], lambda t: t == e["pair"]):
-                        fill_e, pos_e = a_[2], 0
-                    elif isinstance(a_[3], str) and contains(a_[2], lambda t: t == e["pair"]):
-                        fill_e, pos_e = a_[3], 1
-                elif isinstance(a_, tuple) and a_[0] == "fstr":
-                    lits = [x for x in a_[1] if isinstance(x, str)]
-                    if len(lits) == 1 and len(a_[1]) == 2:
-                        fill_e, pos_e = lits[0], 0 if isinstance(a_[1][0], str) else 1
+                ff = e["filler_form"](a_)
+                if ff is not None:
+                    fill_e, pos_e = ff
         fill_d = d["fill_d"]
         idx_d = None
         for p_ in d["tail"]:
